@@ -515,6 +515,29 @@ class PrefixSum:
         return out
 
 
+def bound_arguments(eng, f, args, kwargs):
+    """The arguments of a recorded call bound to the callee's real parameter names (positional and keyword forms of the same call are the same
+    call): f is the callee as the engine hands it to a contract (function closure, or a class for a constructor call)."""
+    node = None
+    if isinstance(f, I.ClassRef):
+        _, m = f.find(eng, "__init__")
+        node = m[0] if isinstance(m, tuple) else getattr(m, "node", m)
+        names = [a.arg for a in node.args.args][1:] if node is not None else []
+    else:
+        node = getattr(f, "node", None)
+        names = [a.arg for a in node.args.args] if node is not None else []
+    args = list(args)
+    if names and names[0] in ("self", "cls"):
+        if args and isinstance(args[0], (I.ClassRef, I.Obj)) and len(args) + len(kwargs) > 0:
+            args = args[1:]
+        names = names[1:]
+    if isinstance(f, I.ClassRef) and args and isinstance(args[0], I.ClassRef):
+        args = args[1:]
+    bound = dict(zip(names, args))
+    bound.update(kwargs)
+    return bound
+
+
 def same_array(a, b, name="q"):
     """z3 goal: the two arrays have the same shape and the same element at a generic position (a value comparison -- contracts must not
     demand object identity of arrays: a refactoring may pass a copy)."""
